@@ -1431,6 +1431,188 @@ def scenario_bg_cycles(ctx, exe, spec):
         D.remove()
 
 
+def new_seed_failures(D, what, before, euid):
+    """'a new seed file exists': a regular file, mode 0600, owned by the daemon, complete, not what was there before"""
+    import stat as _st
+    out = []
+    try:
+        st_ = os.lstat(D.seed)
+    except OSError:
+        return ["%s: after the clean stop there is no seed file" % what]
+    if not _st.S_ISREG(st_.st_mode):
+        out.append("%s: after the clean stop the seed path is not a regular file (type %o)" % (what, _st.S_IFMT(st_.st_mode)))
+    else:
+        if st_.st_mode & 0o7777 != 0o600:
+            out.append("%s: after the clean stop the seed file has mode %04o, not 0600" % (what, st_.st_mode & 0o7777))
+        if st_.st_uid != euid:
+            out.append("%s: after the clean stop the seed file belongs to uid %d, the daemon ran as %d" % (what, st_.st_uid, euid))
+        if st_.st_size != seed_bytes_fact():
+            out.append("%s: after the clean stop the seed file has %d bytes" % (what, st_.st_size))
+        after = seed_id(D.seed)
+        if before is not None and after is not None and (after[0], after[1], after[3]) == (before[0], before[1], before[3]):
+            out.append("%s: after the clean stop the seed file is the old one" % what)
+    return out
+
+
+def scenario_seedfound(ctx, exe, spec):
+    """spec: tag, found in absent | good | mode0644 | mode0660 | owner | symlink, user.  The start finds that seed file;
+    whatever it is, the clean stop of this life must leave a NEW regular 0600 seed file of the daemon's, and the next
+    start must use it (log: Seeded PRNG with <seed_bytes> bytes from "<seed>") and serve."""
+    D = Dir(ctx, spec["tag"]).as_user(spec.get("user"))
+    euid = spec["user"][1] if spec.get("user") else 0
+    egid = spec["user"][2] if spec.get("user") else 0
+    found = spec["found"]
+    what = "start that finds the seed file %s%s" % (
+        {"absent": "absent", "good": "good (0600, own, complete)", "mode0644": "with mode 0644", "mode0660": "with mode 0660",
+         "owner": "owned by another uid", "symlink": "to be a symbolic link"}[found],
+        " [daemon run as user %s]" % spec["user"][0] if spec.get("user") else "")
+    try:
+        target = os.path.join(D.d, "elsewhere")
+        if found != "absent":
+            with open(target if found == "symlink" else D.seed, "wb") as f:
+                f.write(os.urandom(seed_bytes_fact()))
+            p_ = target if found == "symlink" else D.seed
+            os.chmod(p_, {"mode0644": 0o644, "mode0660": 0o660}.get(found, 0o600))
+            os.chown(p_, 4242 if found == "owner" else euid, egid)
+            if found == "symlink":
+                os.symlink(target, D.seed)
+        before = seed_id(D.seed) if found != "symlink" else None
+        a, err = start_and_serve(D, exe, what)
+        if err:
+            return [err], {}
+        os.kill(a.pid, signal.SIGTERM)
+        try:
+            rc = a.wait(timeout=20)
+        except subprocess.TimeoutExpired:
+            return ["%s: the daemon did not exit within 20 s of SIGTERM" % what], {}
+        fails = []
+        if rc != 0:
+            fails.append("%s: the clean stop exited with status %s" % (what, rc))
+        for n_ in ("sock", "lock", "pid"):
+            if os.path.lexists(D.names()[n_]):
+                fails.append("%s: after the clean stop the %s file still exists" % (what, n_))
+        fails += new_seed_failures(D, what, before, euid)
+        if not fails:
+            # the next life uses it
+            mark = os.path.getsize(D.err if hasattr(D, "err") else D.log)
+            b, err = start_and_serve(D, exe, what + ", clean stop, next start")
+            if err:
+                fails.append(err)
+            else:
+                logged = open(D.err if hasattr(D, "err") else D.log, errors="replace").read()[mark:]
+                if not re.search(r"Seeded PRNG with %d bytes from" % seed_bytes_fact(), logged):
+                    fails.append("%s: the next start did not seed the PRNG from the seed file the stop wrote: %s"
+                                 % (what, " / ".join(l.strip()[-90:] for l in logged.splitlines() if "seed" in l.lower())[:300]))
+                f2, _ = stop_and_check(D, b, what + ", clean stop, next start", seed_id(D.seed))
+                fails += f2
+        return fails, {"found": found}
+    finally:
+        D.remove()
+
+
+def run_as_root(D, argv, timeout=30, reap=None):
+    """a command of the administrator (not of the daemon's user): exit status, or 'timeout'.  reap = a foreground daemon
+    that is our child: it must be waited for while the command runs (--stop polls until the pid is gone; a zombie is
+    not gone)"""
+    lf = open(os.path.join(D.d, "admin.err"), "ab")
+    try:
+        p = subprocess.Popen(argv, stdout=subprocess.DEVNULL, stderr=lf)
+        if reap is not None:
+            try:
+                reap.wait(timeout=timeout)
+            except subprocess.TimeoutExpired:
+                pass
+        try:
+            return p.wait(timeout=timeout)
+        except subprocess.TimeoutExpired:
+            p.kill()
+            return "timeout"
+    finally:
+        lf.close()
+
+
+def listing(D):
+    """{name: (type, mode, uid)} of the directory, the harness's own files left out"""
+    import stat as _st
+    out = {}
+    for fn in sorted(os.listdir(D.d)):
+        if fn in ("admin.err", "stderr", "log", "key") or fn.startswith("tr"):
+            continue
+        st_ = os.lstat(os.path.join(D.d, fn))
+        out[fn] = ("sock" if _st.S_ISSOCK(st_.st_mode) else "link" if _st.S_ISLNK(st_.st_mode) else "reg" if _st.S_ISREG(st_.st_mode)
+                   else "other", "%04o" % (st_.st_mode & 0o7777), st_.st_uid)
+    return out
+
+
+def scenario_stop_cmd(ctx, exe, spec):
+    """spec: tag, daemon in none | fg | bg, user.  `munged --stop -S <socket>` run by root: with no daemon (exit != 0) it
+    leaves the directory as it is; with a daemon (run as root or as an unprivileged user) it stops it cleanly (socket,
+    lock, pid gone, new seed); a redundant second --stop then again changes nothing; a fresh start without --force by
+    the daemon's user serves."""
+    D = Dir(ctx, spec["tag"]).as_user(spec.get("user"))
+    who = " [daemon run as user %s, --stop run by root]" % spec["user"][0] if spec.get("user") else ""
+    stop = [exe, "--stop", "-S", D.sock]
+    fails = []
+    try:
+        if spec["daemon"] != "none":
+            fg = spec["daemon"] == "fg"
+            a = popen(D, D.argv(exe, foreground=fg))
+            if not fg:
+                try:
+                    a.wait(timeout=RESTART_BOUND)
+                except subprocess.TimeoutExpired:
+                    pass
+            if not wait_serving(D, RESTART_BOUND):
+                return ["munged (%s)%s does not serve" % (spec["daemon"], who)], {}
+            rc = run_as_root(D, stop, reap=a if fg else None)
+            if rc != 0:
+                fails.append("munged --stop with a daemon running%s exited with status %s" % (who, rc))
+            if not wait_for(lambda: not D.procs(), 20.0):
+                fails.append("munged --stop%s: the daemon is still running" % who)
+                return fails, {}
+            ls = listing(D)
+            for n_ in ("s", "s.lock", "pid"):
+                if n_ in ls:
+                    fails.append("after munged --stop%s the file %s is still there %s" % (who, n_, ls[n_]))
+            if "seed" not in ls:
+                fails.append("after munged --stop%s there is no seed file" % who)
+        before = listing(D)
+        rc = run_as_root(D, stop)
+        what = "munged --stop with no daemon running (%s)%s" % (
+            "nothing ever started here" if spec["daemon"] == "none" else "a second, redundant stop", who)
+        if rc == 0:
+            fails.append("%s exited 0" % what)
+        after = listing(D)
+        if after != before:
+            new = {k: v for k, v in after.items() if before.get(k) != v}
+            gone = [k for k in before if k not in after]
+            fails.append("%s changed the directory: new/changed %s (type, mode, uid)%s — the stop command must leave no file behind"
+                         % (what, new, ", gone %s" % gone if gone else ""))
+        # a fresh start without --force by the daemon's user
+        b = popen(D, D.argv(exe, foreground=False))
+        try:
+            rc = b.wait(timeout=RESTART_BOUND)
+        except subprocess.TimeoutExpired:
+            b.kill()
+            rc = "timeout"
+        if rc != 0 or not wait_serving(D, RESTART_BOUND):
+            fails.append("after %s a fresh start without --force%s failed (exit %s; directory before it: %s): %s"
+                         % (what, who, rc, after, last_error(D)))
+        else:
+            for q in D.procs():
+                os.kill(q, signal.SIGTERM)
+            if not wait_for(lambda: not D.procs(), 20.0):
+                fails.append("after %s and a fresh start: the daemon did not exit within 20 s of SIGTERM" % what)
+            else:
+                ls = listing(D)
+                for n_ in ("s", "s.lock", "pid"):
+                    if n_ in ls:
+                        fails.append("after %s, a fresh start and its clean stop the file %s is still there %s" % (what, n_, ls[n_]))
+        return fails, {"listing_after_stop_cmd": after}
+    finally:
+        D.remove()
+
+
 def scenario_seedstate(ctx, exe, spec):
     """spec: tag, size.  A seed file of `size` bytes (mode 0600) is in place — size 0 is what SIGKILL between
     open(seed, O_CREAT|O_TRUNC) and write() of the shutdown leaves; a fresh start must serve within the bound and its
@@ -1673,6 +1855,14 @@ def forced_interleavings(ctx, exe, oracle, prog, pos, concrete, corr, dist, expe
             jobs.append(("model search on the observed program (%s)" % out[0].split(" ; ")[0][2:], found, None))
     else:
         ctx.notes.append("interleaving search did not run: %s" % (err[-200:] or out))
+    # the one schedule the unchanged code is known to allow (F-C15-unlink): found by the same search when the
+    # known_overlap transition is not avoided; replayed live and reported under its finding key
+    known_sched = None
+    if found is None and expected_prog is not None and prog == expected_prog and not os.environ.get("VERIF_C15_SKIP_FINDING"):
+        rc, out, err = vlib.run_lines([oracle], ["B 3 400000 3 0 ; %s" % P], timeout=120)
+        if rc == 0 and len(out) == 1 and out[0].startswith("B found"):
+            known_sched = out[0].split(" ; ", 1)[1].split()
+            jobs.append(("F-C15-unlink: the schedule the search finds when it may take the known_overlap transition", known_sched, None))
     fam = gap_schedules(prog)
     if fam:
         rc, out, err = vlib.run_lines([oracle], ["Y 3 ; %s ; %s" % (P, " ".join(sc)) for _, sc in fam], timeout=120)
@@ -1701,7 +1891,13 @@ def forced_interleavings(ctx, exe, oracle, prog, pos, concrete, corr, dist, expe
                       "preempted mid-program is parked with strace -e inject=<syscall>:signal=STOP:when=<n> and resumed "
                       "with SIGCONT; afterwards count the live munged processes holding a listening socket bound to the "
                       "socket path (/proc/net/unix, /proc/<pid>/fd)"}
-        if len(r["bound"]) >= 2:
+        if len(r["bound"]) >= 2 and name.startswith("F-C15-unlink:"):
+            ctx.violation("two live munged (pids %s) bound to one socket path after a clean stop overlapping a start (lock file "
+                          "unlinked while another start had it open, unlocked): [%s] = %s"
+                          % (r["bound"], r["schedule"], describe_schedule(prog, r["schedule"].split())),
+                          dict(rep, finding_key=FINDING_KEY, model_witness="C15_shutdown_overlap_refuted: overlap_sched 0 1 2"),
+                          found_input=True)
+        elif len(r["bound"]) >= 2:
             concrete.append(("%d live munged processes (pids %s) are bound to the one socket path at once after the interleaving "
                              "[%s] = %s (%s); lock file held by %s"
                              % (len(r["bound"]), r["bound"], r["schedule"], describe_schedule(prog, r["schedule"].split()), name,
@@ -2132,8 +2328,12 @@ def _run_live(ctx, exe, oracle, concrete, corr):
             known = set(prog or []) | {"serve", "exit", "getlk"}
             if all(t in known or t.startswith("unlink:") for t in toks) and "serve" in toks and toks[-1] == "exit":
                 live_prog = toks
-                if det.get("pos_reliable") and len(det.get("pos", [])) == len(toks):
+                # (a call split by strace into "<unfinished ...>" / "<... resumed>" is still counted once, at its first
+                #  half, so the ordinals hold; a split call on one of the names would have cost a token above)
+                if len(det.get("pos", [])) == len(toks):
                     live_pos = det["pos"]
+                else:
+                    ctx.notes.append("no system-call positions for the observed program: forced interleavings skipped")
             ctx.sample({"strace_abstract": " ".join(toks)})
             dist["trace"] = dist.get("trace", 0) + 1
             if prog is not None and toks != prog:
@@ -2348,7 +2548,7 @@ def _run_live(ctx, exe, oracle, concrete, corr):
         ctx.log("closed descriptors done: %d scenarios, %d with failures" % (len(gspecs), sum(1 for _, (f, _) in res if f)))
     # ---- (e) seed file: cycles and pre-made seed states
     especs = []
-    if replay and replay.get("scenario") in ("cycles", "seedstate", "bgcycles"):
+    if replay and replay.get("scenario") in ("cycles", "seedstate", "bgcycles", "seedfound", "stopcmd"):
         especs = [dict(replay["spec"], tag="se0", kind=replay["scenario"])]
     elif replay is None:
         sb = seed_bytes_fact()
@@ -2362,12 +2562,20 @@ def _run_live(ctx, exe, oracle, concrete, corr):
             especs.append({"tag": "bcn7", "kind": "bgcycles", "cycles": 3, "umask": 0o77, "user": user})
         for sz in ([0, 1, sb - 1, sb, sb + 1] + ([sb // 2, 4 * sb] if ctx.thorough else [])):
             especs.append({"tag": "ss%d" % sz, "kind": "seedstate", "size": sz})
+        for i, fnd in enumerate(("absent", "good", "mode0644", "mode0660", "owner", "symlink")):
+            especs.append({"tag": "sf%d" % i, "kind": "seedfound", "found": fnd})
+            if user and (ctx.thorough or fnd in ("mode0644", "symlink")):
+                especs.append({"tag": "sfn%d" % i, "kind": "seedfound", "found": fnd, "user": user})
+        for i, (dm, us) in enumerate((("none", None), ("fg", None), ("bg", None)) + ((("bg", user), ("fg", user), ("none", user)) if user else ())):
+            especs.append({"tag": "sc%d" % i, "kind": "stopcmd", "daemon": dm, "user": us})
     if especs:
         with ThreadPoolExecutor(max_workers=10) as ex:
-            fn = {"cycles": scenario_cycles, "seedstate": scenario_seedstate, "bgcycles": scenario_bg_cycles}
+            fn = {"cycles": scenario_cycles, "seedstate": scenario_seedstate, "bgcycles": scenario_bg_cycles,
+                  "seedfound": scenario_seedfound, "stopcmd": scenario_stop_cmd}
             res = list(ex.map(lambda sp: (sp, fn[sp["kind"]](ctx, exe, sp)), especs))
         for sp, (fails, fct) in res:
-            ctx.count((sp["kind"], sp.get("cycles"), sp.get("size"), sp.get("umask"), sp.get("syslog"), bool(sp.get("user"))))
+            ctx.count((sp["kind"], sp.get("cycles"), sp.get("size"), sp.get("umask"), sp.get("syslog"), bool(sp.get("user")),
+                       sp.get("found"), sp.get("daemon")))
             hist = fct.get("left_after_each_life") or []
             if oracle and sp["kind"] == "bgcycles" and not sp.get("syslog") and hist and "log" in hist[0]:
                 rc_, out_, _ = vlib.run_lines([oracle], ["L %d" % sp["umask"]])
